@@ -270,7 +270,7 @@ pub fn c09(ctx: &Ctx, rep: &mut Report) {
     }
     rep.count("table_cells", rep.evaluations);
     // random 32-bit pairs: count-based so that both builds see the same corpus
-    let n = ctx.share(20_000, 400_000);
+    let n = ctx.share(60_000, 1_000_000);
     for i in 0..n {
         let mut rng = ctx.rng("C09", i);
         let a = if rng.coin() { rng.i32_any() } else { rng.i32_interesting() };
@@ -477,7 +477,7 @@ pub fn c15(ctx: &Ctx, rep: &mut Report) {
     rep.count("format_strings_upto_len", max_all as u64);
     // random formats over a wide Unicode alphabet: every character other than ~ and the six escapes
     // is copied unchanged
-    let nu = ctx.share(4_000, 200_000);
+    let nu = ctx.share(60_000, 2_000_000);
     for i in 0..nu {
         let mut rng = ctx.rng("C15u", i);
         let len = rng.below(24);
@@ -509,7 +509,7 @@ pub fn c15(ctx: &Ctx, rep: &mut Report) {
         rep.bump("c15-unicode-formats", if ph == nargs { "matching" } else { "mismatching" });
     }
     // rendering of nested values
-    let n = ctx.share(5_000, 300_000);
+    let n = ctx.share(60_000, 2_000_000);
     for i in 0..n {
         if i % 256 == 0 && ctx.out_of_time() && i > n / 10 {
             break;
@@ -1021,7 +1021,7 @@ pub fn c13(ctx: &Ctx, rep: &mut Report) {
             return;
         }
     };
-    let n = ctx.share(24_000, 1_600_000);
+    let n = ctx.share(300_000, 6_000_000);
     for i in 0..n {
         if i % 256 == 0 && ctx.out_of_time() && i > n / 10 {
             rep.notes.push(format!("time budget reached after {} of {} shapes", i, n));
